@@ -132,7 +132,7 @@ std::string show(const std::vector<Stored> &v)
     return s + "]";
 }
 
-uint64_t nParse = 0, nAccepted = 0, nRejected = 0, nAcceptedFields = 0, nAcceptedFolded = 0, nAcceptedBareCr = 0, nMustRejectSeen = 0,
+uint64_t nFoldRemnant = 0, nParse = 0, nAccepted = 0, nRejected = 0, nAcceptedFields = 0, nAcceptedFolded = 0, nAcceptedBareCr = 0, nMustRejectSeen = 0,
          nRepack = 0, nWsReplyStripped = 0, nNeedMore = 0;
 
 struct RunResult { bool accepted = false; bool withFields = false; std::string mustReject; };
@@ -212,7 +212,18 @@ RunResult checkBlock(const std::string &block, const bool isRequest, const int r
     bool eq = again.size() == all.size() && hdrSize2 == packed.size();
     for (size_t i = 0; eq && i < all.size(); ++i)
         eq = again[i].id == all[i].id && again[i].name == all[i].name && again[i].value == all[i].value;
-    if (!eq) V::fail(cfg + ": pack -> parse changed the fields: " + show(all) + " became " + show(again) + " via '" + V::esc(packed) + "'");
+    if (!eq) {
+        const std::string msg = cfg + ": pack -> parse changed the fields: " + show(all) + " became " + show(again) + " via '" + V::esc(packed) + "'";
+        bool endsWithLineTerminator = false;
+        for (const auto &e : all) if (!e.value.empty() && e.value.back() == '\n') endsWithLineTerminator = true;
+        if (endsWithLineTerminator) {
+            // one stable key for this input class (see known_findings.d/C25.json); a few instances per shard are enough
+            if (++nFoldRemnant <= 3)
+                V::failKey("obs-fold-blank-continuation:value-keeps-line-terminator",
+                           msg + ": the stored value ends with the line terminator of an obs-fold whose continuation line is blank, so packInto() emits an empty line inside the header block");
+        } else
+            V::fail(msg);
+    }
     return rr;
 }
 
@@ -295,6 +306,7 @@ void body(V::Ctx &ctx)
     V::count("repack_roundtrips", nRepack);
     V::count("reply_ws_before_colon_accepted", nWsReplyStripped);
     V::count("need_more", nNeedMore);
+    V::count("known_class_fold_remnant_hits", nFoldRemnant);
 }
 
 } // namespace
